@@ -219,6 +219,21 @@ def explore(world, starts, depth, res, on_step, max_states=200000,
                         break
                 world.set_state(c, 5 if w else 0)
                 world.step_v(frame)
+            if ntrans % 11 == 0:
+                # a group that has been running for a while: the 32-bit
+                # counter is beyond 255 (and wraps at 2^32); the frames carry
+                # its low byte only, so must the outcome
+                for hi in (0x100, 0x7f00, 0xffffff00):
+                    world.set_state(c | hi, 5 if w else 0)
+                    r3, o3, ran3 = world.step_v(frame)
+                    c3, w3 = world.get_state()
+                    if (r3, o3, ran3, c3 & 0xff, w3) != \
+                            (ret, out, ran, c2 & 0xff, w2):
+                        rec["counter_dependence"] = (c | hi, r3, ran3,
+                                                     c3)
+                        break
+                world.set_state(c, 5 if w else 0)
+                world.step_v(frame)
             if ntrans % k_every == 0:
                 world.set_state(c, 5 if w else 0)
                 rk, ok = world.step_k(frame)
